@@ -97,6 +97,9 @@ func (g *G) buildPaths() {
 		add(grl.P(f+".I"), grl.TInt, true, true)
 		add(grl.P(f+".I32"), grl.TInt, false, true)
 		add(grl.P(f+".I8"), grl.TInt, false, true)
+		add(grl.P(f+".D"), grl.TInt, false, true)
+		add(grl.P(f+".Mn"), grl.TFloat, false, true)
+		add(grl.P(f+".Gr"), grl.TUint, false, true)
 		add(grl.P(f+".U64"), grl.TUint, false, true)
 		add(grl.P(f+".U16"), grl.TUint, false, true)
 		add(grl.P(f+".U8"), grl.TUint, false, true)
@@ -718,6 +721,9 @@ func (g *G) fact() *grl.Fact {
 		I:   r.PickInt64(0, 1, 2, 3, 5, 10, -1, -4, 1000, 9007199254740993),
 		I32: int32(r.PickInt64(0, 1, 2, -1, 2147483647, -2147483648)),
 		I8:  int8(i8[r.Intn(len(i8))]),
+		D:   time.Duration(r.PickInt64(0, 1, 2, 5, 1000, -3)),
+		Mn:  grl.Money(smallFloats[r.Intn(len(smallFloats))]),
+		Gr:  grl.Grade(r.PickInt64(0, 1, 2, 200)),
 		U64: uint64(r.PickInt64(0, 1, 2, 3, 1000)),
 		U16: uint16(r.PickInt64(0, 1, 2, 65535)),
 		U8:  uint8(r.PickInt64(0, 1, 2, 255)),
@@ -823,6 +829,39 @@ func Scenario(property string, seed uint64, prof Profile) *core.Scenario {
 		sc.Removed = []string{sc.Program.Rules[r.Intn(len(sc.Program.Rules))].Name}
 	}
 	AnnounceFieldMethods(sc.Program, r)
+	// other notations of the same literal (hexadecimal / octal integers, TRUE / True): from a generator of
+	// their own, so that the rest of the stream is unchanged
+	ra := core.NewRand(core.Mix(seed, 0xa17))
+	var alt func(e *grl.Expr)
+	alt = func(e *grl.Expr) {
+		if e == nil || e.K == "call" {
+			return // the text of a fact method call stays as it is: C13 is about calls with IDENTICAL text
+		}
+		if e.K == "lit" && (e.LitK == "int" || e.LitK == "bool") && ra.Chance(1, 8) {
+			e.Alt = 1 + ra.Intn(2)
+		}
+		if e.Path != nil {
+			for i := range e.Path.Steps {
+				alt(e.Path.Steps[i].Sel)
+			}
+		}
+		alt(e.L)
+		alt(e.R)
+		for _, a := range e.Args {
+			alt(a)
+		}
+	}
+	for _, rl := range sc.Program.Rules {
+		alt(rl.When)
+		for _, a := range rl.Then {
+			alt(a.E)
+			if a.Path != nil {
+				for i := range a.Path.Steps {
+					alt(a.Path.Steps[i].Sel)
+				}
+			}
+		}
+	}
 	sc.Schedule = g.Schedule(int(sc.Knobs.MaxCycle)+2, len(sc.Program.Rules), r.Intn(4))
 	sc.LatSeed = r.Uint64()
 	sc.GRL = grl.PrintProgram(sc.Program)
